@@ -248,3 +248,18 @@ Example C01_spaced_existence_example :
   map snd (nav_allf pf rm doc pneg ([], doc)) = [VObj [("b", VNum (num_of_Z 2))]; VNum (num_of_Z 3)]%string /\
   map snd (nav_allf pf rm doc ppos ([], doc)) = [VObj [("a", VNum (num_of_Z 1))]]%string.
 Proof. cbv zeta. do 5 (split; [vm_compute; reflexivity|]). vm_compute. reflexivity. Qed.
+
+(* a query in disjunctive form with blanks (QuerySpace.v): `$[?( @.a>1 &&  @.b || ! @.c )]` selects as `$[?(@.a>1&&@.b||!@.c)]` does *)
+From JP Require Import QuerySpace.
+Example C01_spaced_query_example :
+  let pf := fun s : string => if String.eqb s "1" then Some (num_of_Z 1) else None in
+  let rm := fun _ _ : string => false in
+  let doc := VArr [VObj [("a", VNum (num_of_Z 2)); ("b", VNull); ("c", VNull)]; VObj [("a", VNum (num_of_Z 2)); ("c", VNull)];
+                   VObj [("a", VNum (num_of_Z 1)); ("b", VNull)]; VObj [("a", VNum (num_of_Z 1)); ("b", VNull); ("c", VNull)]]%string in
+  let d : sdnf := (((SBC [RPlain (SDot [97%N])] 0 OGt 0 [49%N], 1%nat), [(2%nat, (SBE false 0 [RPlain (SDot [98%N])], 1%nat))]), [(1%nat, ((SBE true 1 [RPlain (SDot [99%N])], 1%nat), []))]) in
+  text_of (fchain_path [FQS 1 d]) = "$[?( @.a>1 &&  @.b || ! @.c )]"%string /\
+  text_of (fchain_path [FQ (unspace_dnf d)]) = "$[?(@.a>1&&@.b||!@.c)]"%string /\
+  forallb fstep_ok [FQS 1 d] = true /\ forallb (fstep_okp pf (fun _ => true)) [FQS 1 d] = true /\
+  map snd (nav_allf pf rm doc [FQS 1 d] ([], doc)) =
+    [VObj [("a", VNum (num_of_Z 2)); ("b", VNull); ("c", VNull)]; VObj [("a", VNum (num_of_Z 1)); ("b", VNull)]]%string.
+Proof. cbv zeta. do 4 (split; [vm_compute; reflexivity|]). vm_compute. reflexivity. Qed.
